@@ -44,7 +44,8 @@
                           IoRcApp / IoRcApp2 (requests.append(self.request): load of
                           requests, load of request, then the mutation) IoRcLen (len(requests)==1)
                           -> add_task (IoRcAt)  IoRcRel (Rel Rq)
-     send_continue()      ScAcq (A Ob) ScApp (outbufs[-1].append) ScTotR/ScTotW
+     send_continue(do_close)  (do_close only matters for socket errors, which are not modelled)
+                          ScAcq (A Ob) ScApp (outbufs[-1].append) ScTotR/ScTotW
                           (total += 25, sent_continue := True) ScFl (_flush_some)
                           ScRel (Rel Ob)
      handle_write_event   IoHwConn (R connected) IoHwReq (R requests: [] ->
